@@ -7,9 +7,13 @@ import (
 	"reflect"
 	"sort"
 	"strings"
+	"time"
 	"unsafe"
 
 	"github.com/philpearl/avro"
+	avronull "github.com/philpearl/avro/null"
+	avrotime "github.com/philpearl/avro/time"
+	"github.com/unravelin/null/v5"
 
 	"verifharness/core"
 	"verifharness/lib"
@@ -683,10 +687,72 @@ func c20fill(r *rand.Rand, k *c20kind, rt reflect.Type, v reflect.Value, depth i
 
 var c20ks []*c20kind
 
+type c20builtinHolder struct {
+	N null.Int  `json:"n"`
+	T time.Time `json:"t"`
+}
+
+// c20builtin: override a built-in registration (null.Int, time.Time) with a user builder, then let the
+// library re-register its own: each time the most recent registration must govern.
+func c20builtin(c *core.Ctx) {
+	defer func() {
+		avronull.RegisterCodecs()
+		avrotime.RegisterCodecs()
+	}()
+	schema, err := avro.SchemaForType(c20builtinHolder{})
+	if err != nil {
+		c.Violate("builtin", err.Error(), nil)
+		return
+	}
+	used := map[string]int{}
+	build := func() bool {
+		for k := range used {
+			delete(used, k)
+		}
+		_, err := schema.Codec(c20builtinHolder{})
+		if err != nil {
+			c.Violate("builtin", "codec build failed: "+err.Error(), nil)
+			return false
+		}
+		return true
+	}
+	c.Eval(1)
+	for round := 0; round < 3; round++ {
+		avro.Register(reflect.TypeOf(null.Int{}), func(s avro.Schema, t reflect.Type, omit bool) (avro.Codec, error) {
+			used["user-null"]++
+			return avro.Int64Codec{}, nil
+		})
+		avro.Register(reflect.TypeOf(time.Time{}), func(s avro.Schema, t reflect.Type, omit bool) (avro.Codec, error) {
+			used["user-time"]++
+			return avrotime.StringCodec{}, nil
+		})
+		if !build() {
+			return
+		}
+		if used["user-null"] == 0 || used["user-time"] == 0 {
+			c.Violate("stale-registration", fmt.Sprintf("round %d: a user registration for null.Int/time.Time made after the library's own is not consulted (%v)", round, used), nil)
+			return
+		}
+		avronull.RegisterCodecs()
+		avrotime.RegisterCodecs()
+		if !build() {
+			return
+		}
+		if used["user-null"] != 0 || used["user-time"] != 0 {
+			c.Violate("stale-registration", fmt.Sprintf("round %d: after the library re-registered its own codecs the superseded user builder was still consulted (%v)", round, used), nil)
+			return
+		}
+		c.Count("builtin-reregistration-rounds", 1)
+	}
+}
+
 func runC20(c *core.Ctx, i int) {
 	if c20ks == nil {
 		_ = lib.SchemaFor
 		c20ks = c20kinds()
+	}
+	if i%500 == 7 {
+		c20builtin(c)
 	}
 	r := c.Rand(i, 0)
 	k := c20ks[i%len(c20ks)]
